@@ -155,6 +155,15 @@ add('C07', 'exploration',
     'WINDOW_UPDATE in between) and the application makes local calls (1xx, responses, pushes, resets) in between.',
     'Events of a receive_data call that raised are not part of the trace (the caller never sees them).')
 
+add('C20', 'exploration',
+    'runtime monitoring: trace oracle over delivery schedules in which a local reset crosses in-flight peer frames',
+    'After the local reset (stream open / half-closed either way / reserved, before and after cleanup with up to 200 other '
+    'streams in between) 1-1500 racing frames are delivered: no exception, no event naming the reset stream or streams '
+    'promised on it, the peer (which only sends within the window it was granted) must never end up blocked at window 0 - '
+    'checked beyond 64 kB and with padding floods - and later messages referencing header fields introduced by racing blocks '
+    '(peer uses a real indexing HPACK encoder) must be delivered exactly.',
+    'Racing frames are those that were legal had the reset not happened; more than 2^16 closed streams in between is outside the documented bound.')
+
 NOT_BUILT_REASON = 'check not built yet in this session (planned in DESIGN.md; no verdict claimed)'
 
 def main():
